@@ -38,6 +38,21 @@ func genC02(g *gen, tier string) *Scenario {
 	if p.singleWriter {
 		sc.Family = "accounting,one-writer-per-key"
 	}
+	if g.pct(12) {
+		// one write that displaces many residents: a full cache of unit entries, then a heavy entry
+		sc.Family = "accounting,heavy-displacement,one-writer-per-key"
+		sc.Cache.MaxSize = int64(pick(g, 100, 300, 1000))
+		sc.Cache.WriteChan, sc.Cache.WriteBuf = pick(g, 8, 64), pick(g, 16, 128)
+		heavy := sc.Cache.MaxSize * int64(pick(g, 30, 50, 80, 100)) / 100
+		ops := []Op{{Kind: "fill", Key: 10000, N: int(sc.Cache.MaxSize)}, {Kind: "wait"}}
+		if g.pct(50) {
+			ops = append(ops, Op{Kind: "set", Key: 10000 + g.n(int(sc.Cache.MaxSize)), Cost: heavy}) // cost increase of a resident
+		} else {
+			ops = append(ops, Op{Kind: "set", Key: 5, Cost: heavy}) // heavy insert
+		}
+		sc.Clients = [][]Op{ops}
+		sc.Sim.MaxSteps = 3000000
+	}
 	sc.Stubs.ListenerSlowPct = pick(g, 0, 0, 10)
 	sc.Stubs.ListenerSlowDur = int64(g.rng(1, 1500)) * ms
 	sc.Epilogue = append([]Op{}, quiesce...)
@@ -63,7 +78,7 @@ func setupC02(env *simEnv) {
 		}
 		writers := 0
 		for _, r := range rd.InFlight {
-			if r != nil && (isWrite(r.Op.Kind) || r.Op.Kind == "get") {
+			if r != nil && (isWrite(r.Op.Kind) || r.Op.Kind == "get" || r.Op.Kind == "fill") {
 				writers++
 			}
 		}
